@@ -7,4 +7,4 @@ def agreement(chk, prog):
     except ImportError:
         chk.note("layout term agreement: decided by the C17 check")
         return
-    layout_terms.agreement(chk, prog)
+    layout_terms.agreement(chk, prog, alignment_clauses=False)
